@@ -240,8 +240,8 @@ PROPS['C19'] = {
 }
 
 PROPS['C17'] = {
-    'targets': ['GridVerse.Props.C17', 'GridVerse.Agree.Registry'],
-    'theorem_files': [('GridVerse/Props/C17.lean', 'C17_'), ('GridVerse/Agree/Registry.lean', 'agree_')],
+    'targets': ['GridVerse.Props.C17', 'GridVerse.Props.C17Registry', 'GridVerse.Agree.Registry'],
+    'theorem_files': [('GridVerse/Props/C17.lean', 'C17_'), ('GridVerse/Props/C17Registry.lean', 'C17_'), ('GridVerse/Agree/Registry.lean', 'agree_')],
     'audit_prefix': 'C17_',
     'extract': ('tables', 'configs'),
     'families': {
@@ -253,6 +253,7 @@ PROPS['C17'] = {
         'the `schema` library (its combinators as used by schemas.py are re-implemented in Model/Config.lean) and inspect.signature',
         'PyYAML is not installed in this sandbox: files are loaded with the harness YAML-subset loader (harness/miniyaml.py), which is therefore part of the trusted base for this property',
         'custom components (module:name, examples/coin_env.yaml) are opaque to the model; coin_env is exercised by the oracle only',
+        'FunctionRegistry.register is modelled by hand (Model/Registry.lean: signature check, name clash, append); the real registries are compared with the outcome classes of that model (refused -> same callables under the same names, accepted -> found under exactly its name) by harness/regprobe.py in a subprocess, not driven through the line protocol',
     ],
     'assumptions': ['behavioural equality with the hand-assembled environment is decided by running the real factory-built environment, the hand-assembled one and the model on the same histories'],
 }
@@ -341,6 +342,15 @@ NOT_CLAIMED = {}
 
 # user-defined GridObject classes next to the built-in ones (subprocess probe, see harness/customprobe.py)
 PROPS['C16']['extra'] = [_custom_classes]
-PROPS['C17']['extra'] = [_custom_classes]
+
+
+def _refused_registrations(seed, tier):
+    from harness import regprobe
+
+    return regprobe.check(seed, tier)
+
+
+_refused_registrations.__name__ = 'refused_registrations_change_nothing'
+PROPS['C17']['extra'] = [_custom_classes, _refused_registrations]
 for _pid in ('C03', 'C06', 'C15', 'C19', 'C20'):
     PROPS[_pid]['extra'] = list(PROPS[_pid].get('extra', [])) + [_custom_classes]
